@@ -7,7 +7,6 @@ import SC.Proofs.Utf8Order
 import SC.Proofs.RIndexAny6
 import SC.Proofs.RSuffix
 import SC.Proofs.RTrim
-import SC.Proofs.SrcLoops
 /-!
 # C20 — drop-in agreement with package strings/bytes on caseless and ASCII text
 -/
@@ -233,11 +232,4 @@ theorem equalFold_agrees (s t : Bytes) : Std.equalFoldS s t = some (S.equalFold 
 example : S.equalFold [0x41, 0x62] [0x61, 0x42] = true := by decide +kernel
 example : Std.index [0x78, 0xE4, 0xB8, 0x96, 0x21] [0xE4, 0xB8, 0x96] = 1 ∧ Std.count [0x61, 0x61, 0x61] [0x61, 0x61] = 1 := by
   decide +kernel
-/-- **Source level** (`Gen.Src.str`: the go/ssa form of `strcase.go` regenerated on every run): the guard of the fast path that hands
-    the search to the standard library's byte search — `nonLetterASCII`, a loop over the bytes of the needle — returns, on the program
-    text itself, what the algorithm model's `A.nonLetterASCII` says, for every string shorter than 2^62 bytes (the bound keeps
-    the 64-bit loop counter from wrapping).  Proved by a loop invariant over interpreter frames (`Proofs/SrcLoops.lean`). -/
-theorem source_nonLetterASCII (s : Bytes) (root off : Nat) (h : GoSsa.Heap) (hlen : s.length < 4611686018427387904) :
-    GoSsa.Ret Gen.Src.str false Gen.Src.str_nonLetterASCII [.str s root off] h [.bool (A.nonLetterASCII s)] h :=
-  GoSsa.Str.nonLetterASCII s root off h hlen
 end C20
